@@ -26,6 +26,8 @@ def aggr_struct(fam, t):
         td = fam.tmap()[0].get(t.name)
         if td is not None and isinstance(td.body, smodel.Aggr):
             return aggr_struct(fam, td.body)
+        if td is not None and isinstance(td.body, smodel.Named) and fam.resolve(td.body)[0] == 'aggr':
+            return aggr_struct(fam, td.body)          # TYPE l2 = l: the structure of the aggregate it renames
         return '/' + t.name.lower()
     if isinstance(t, smodel.Aggr):
         return '%s[%s:%s]u%do%d' % (t.kind.lower(), t.lo if t.lo is not None else 0, t.hi if t.hi is not None else UNB, 1 if t.unique else 0,
@@ -103,7 +105,7 @@ def read_dict(lib, entity_names):
             if 'select' in kv:
                 dd['select'] = sorted(kv['select'].split(','))
             if 'aggr' in kv:
-                dd.update({'aggr': kv['aggr'], 'b1': kv['b1'], 'b2': kv['b2'], 'uniq': int(kv['uniq']), 'elem': kv['elem']})
+                dd.update({'aggr': kv['aggr'], 'b1': kv['b1'], 'b2': kv['b2'], 'uniq': int(kv['uniq']), 'elem': kv['elem'], 'telem': kv.get('telem', kv['elem'])})
             types[m.group(1)] = dd
         for en in entity_names:
             try:
@@ -193,6 +195,8 @@ def compare(fam, ee, te, eg, tg, inst):
                     out.append(('aggregate-optional', 'type %s: description %r, declared OPTIONAL=%d' % (n, g['desc'], t['optl'])))
                 if g['elem'] != t['elem']:
                     out.append(('aggregate-element', 'type %s: element type %s, declared %s' % (n, g['elem'], t['elem'])))
+                elif g.get('telem', g['elem']) != t['elem']:
+                    out.append(('aggregate-element/asked-of-the-%stype' % ('renamed-' if t.get('renamed') else ''), 'type %s: AggrElemTypeDescriptor() of its own descriptor names %s, declared %s' % (n, g.get('telem'), t['elem'])))
     return out
 
 
@@ -266,7 +270,7 @@ def variants(fam):
 
 
 def programs(tier):
-    progs = [smodel.family_K('fam_k', pairs=[('inte', 'stri'), ('ref', 'list_int')], renamed=False), smodel.family_I('fam_i'), family_V(), family_A(), family_R()]
+    progs = [smodel.family_K('fam_k', pairs=[('inte', 'stri'), ('ref', 'list_int')], renamed=True), smodel.family_I('fam_i'), family_V(), family_A(), family_R()]
     progs += family_D(4, 'fam_d4')
     # of the five-entity graphs the quick tier keeps those where an entity with several supertypes is itself a supertype, listed second or
     # later, of another entity with several supertypes (multiple inheritance through multiple inheritance)
